@@ -113,6 +113,7 @@ def main():
         import shutil
         shutil.rmtree(scratch, ignore_errors=True)
 
+    rep.extra["apalache"] = apalache_laws()
     rep.coverage = {
         "states": r.distinct + r2.distinct,
         "transitions": r.states + r2.states,
@@ -129,6 +130,33 @@ def main():
     rep.assumptions = ["Python's comparison on ints/floats is the order the helpers are meant for (NaN excluded)",
                        "TLC evaluates the set-comprehension definitions of module Bisect correctly"]
     return rep.finish()
+
+
+def apalache_laws():
+    """Symbolic check (Apalache) of the boundary laws for every sorted INTEGER list of length <= 6 and every integer
+    probe - no finite value domain.  Optional: reported if it finishes; a counterexample would be a defect of the
+    specification, not of the implementation."""
+    import shutil
+    import subprocess
+    import time
+    exe = shutil.which("apalache-mc")
+    if not exe:
+        return {"ran": False, "why": "apalache-mc not on PATH"}
+    out = tlc.mkscratch("apa-")
+    t0 = time.time()
+    try:
+        p = subprocess.run([exe, "check", "--cinit=CInit", "--inv=Laws", "--length=8", "--out-dir=" + out, "Apa_Bisect.tla"],
+                           cwd=tlc.SPEC, stdout=subprocess.PIPE, stderr=subprocess.STDOUT, text=True, timeout=240)
+        txt = p.stdout
+    except subprocess.TimeoutExpired:
+        return {"ran": True, "finished": False, "seconds": round(time.time() - t0, 1)}
+    finally:
+        shutil.rmtree(out, ignore_errors=True)
+    if "The outcome is: NoError" in txt:
+        return {"ran": True, "finished": True, "outcome": "NoError", "length": 8, "max_list_length": 6, "seconds": round(time.time() - t0, 1)}
+    if "The outcome is: Error" in txt or "violat" in txt.lower():
+        raise tlc.MachineryError("Apalache found a counterexample to the Bisect laws (a defect of the specification):\n" + txt[-1500:])
+    return {"ran": True, "finished": False, "note": txt[-300:], "seconds": round(time.time() - t0, 1)}
 
 
 def replay(rep):
